@@ -14,6 +14,7 @@ CONSTANTS
   SlewMax = 600
   MaxSamples = 1
   Ghosts = FALSE
+  Readd = TRUE
   OffPos = {0, 1}
   OffNeg = {1}
   LeapVals = {"none"}
